@@ -109,6 +109,75 @@ def rule_r1(F):
     return r
 
 
+_WALK = {}
+
+
+def _path_walk_eval(F):
+    """resolve_module_part_of_path EVALUATED (vf/sx, loop walked twice, helpers of the type checker opaque): the sequence of lookups
+    on every path.  Returns None when the method cannot be evaluated, else (number of paths, number of lookups seen, problems) with
+    problems = [(kind, text)], kind in {'init', 'later', 'scope'}."""
+    if id(F) in _WALK:
+        return _WALK[id(F)]
+    from .. import sx
+    ps = [p for p in F.paths() if p.endswith("::resolve_module_part_of_path")]
+    b = F.body(ps[0]) if ps else None
+    out = None
+    if b is not None and b.hir:
+        spos = [i for i, p_ in enumerate(b.hir["params"]) if "ScopeRef" in str(p_.get("ty") or "")]
+        sname = b.hir["params"][spos[0]].get("name") if spos else None
+        ipos = [i for i, p_ in enumerate(b.hir["params"]) if "Iterator" in str(p_.get("ty") or "")]
+        iname = b.hir["params"][ipos[0]].get("name") if ipos else None
+        opq = {p for p in F.paths() if p.startswith("typechecker::") and p != b.path and not (p.startswith(b.path.rsplit("::", 1)[0]) and hir.last(p) not in
+               ("resolve_name", "parent_module", "get_declaration", "expr", "error_not_defined", "error_too_many_supers", "error_expected_module", "error_simple"))}
+        try:
+            paths = sx.Exec(F, opaque=opq, unroll=2, max_paths=4000).paths(b.hir, {})
+        except (sx.TooManyPaths, sx.Unknown):
+            paths = None
+        if paths is not None and sname:
+            problems, nlook, first_true, second_false = [], 0, False, False
+            for res, evs in paths:
+                # a helper of the type checker that is handed the path iterator has (possibly) walked the leading `super`s: it counts
+                # like the parent_module lookups it makes
+                def _takes_iter(e_):
+                    return e_[0] == "mcall" and e_[1] not in ("resolve_name", "next") and iname and any(sx.mentions(a_, iname) for a_ in e_[3])
+                evs = [(e[0], "parent_module", e[2], e[3]) if _takes_iter(e) else e for e in evs]
+                evs = [e for e in evs if e[0] == "mcall" and e[1] in ("resolve_name", "parent_module", "next")]
+                looks = 0
+                for i, e in enumerate(evs):
+                    if e[1] != "resolve_name" or len(e[3]) != 3:
+                        continue
+                    looks += 1
+                    nlook += 1
+                    sc, idn, fl = e[3]
+                    if not isinstance(fl, bool):
+                        problems.append(("init", "the flag handed to resolve_name is not decided by the path (%s)" % sx.short(fl, 40)))
+                        continue
+                    before = evs[:i]
+                    if fl:
+                        if looks > 1 or any(x[1] == "parent_module" for x in before) or sum(1 for x in before if x[1] == "next") != 1:
+                            problems.append(("later", "a segment that is not the first of the path (lookup #%d on its path, after %s) is looked up with the search through the enclosing scopes switched on"
+                                             % (looks, [x[1] for x in before])))
+                        elif not (isinstance(sc, sx.Sym) and str(sc) == sname):
+                            problems.append(("scope", "the first segment is not looked up from the scope the path is written in (%s)" % sx.short(sc, 40)))
+                        else:
+                            first_true = True
+                    else:
+                        if looks == 1 and not any(x[1] == "parent_module" for x in before):
+                            problems.append(("init", "the first path segment is looked up with the search through the enclosing scopes switched off"))
+                        if isinstance(sc, sx.Sym) and str(sc) == sname:
+                            problems.append(("scope", "a later segment is looked up in the scope the path is written in, not in the scope of the item found before it"))
+                        if looks >= 2:
+                            second_false = True
+            if not first_true:
+                problems.append(("init", "no path looks the first segment up through the enclosing scopes"))
+            if not second_false:
+                problems.append(("later", "no second lookup was seen (the walk over the later segments was not evaluated)"))
+            out = (len(paths), nlook, sorted(set(problems)))
+    _WALK.clear()
+    _WALK[id(F)] = out
+    return out
+
+
 def rule_r2(F):
     """Decided on the MIR data flow of resolve_module_part_of_path (the shape and the names of the loop do not matter): the three
     values handed to resolve_name are variables; `scope` starts at the function's scope parameter and is re-assigned from the
@@ -120,6 +189,16 @@ def rule_r2(F):
         r.missing("resolve_module_part_of_path")
         return r
     b = F.body(ps[0])
+    ev_ = _path_walk_eval(F)
+    if ev_ is not None and not any("not evaluated" in t_ or "not decided" in t_ for _, t_ in ev_[2]):
+        # decided by evaluation: which segment is looked up how, in which scope - however the walk is written (tuples, helpers for
+        # the leading `super`s, a private enum for their outcome)
+        r.inst("recurse starts true", {"decided_by": "evaluation", "paths": ev_[0], "lookups": ev_[1]})
+        r.inst("loop", {"decided_by": "evaluation", "problems": [t_ for _, t_ in ev_[2]][:4]})
+        for kind, text in ev_[2]:
+            if kind in ("init", "scope"):
+                r.bad(b.path, "recurse init" if kind == "init" else "scope feedback", relfile(b.file), b.line, text)
+        return r
     defs = mir.Defs(b)
     calls = [(bi, t) for bi, t in mir.calls(b) if hir.last(mir.callee(t)) == "resolve_name" and len(t["args"]) == 4]
     if not calls:
@@ -407,6 +486,16 @@ def rule_r8(F):
         r.missing("resolve_module_part_of_path")
         return r
     b = F.body(ps[0])
+    ev_ = _path_walk_eval(F)
+    if ev_ is not None and not any("not evaluated" in t_ or "not decided" in t_ for _, t_ in ev_[2]):
+        r.inst("later segments (evaluated)", {"paths": ev_[0], "lookups": ev_[1]})
+        r.inst("segment after super (evaluated)", {"problems": [t_ for k_, t_ in ev_[2] if k_ == "later"][:3]})
+        for kind, text in ev_[2]:
+            if kind == "later":
+                r.bad(b.path, "a further path segment looked up through the enclosing scopes", relfile(b.file), b.line,
+                      text + ": it is searched in the enclosing scopes and imports instead of only among the members of the item before it (`super.pkg.f` resolves from inside "
+                      "pkg.a.b although pkg.a has no member pkg)")
+        return r
     defs = mir.Defs(b)
     dom = mir.dominators(b)
     calls = [(bi, t) for bi, t in mir.calls(b) if hir.last(mir.callee(t)) == "resolve_name" and len(t["args"]) == 4]
